@@ -235,7 +235,8 @@ GROUPS += [
         "id": "C04.recv.v4", "property": ["C04", "C01"], "crate": "core", "stubbing": True, "cbmc_args": FS1100,
         "harnesses": ["c04_v4_recv", "c04_v4_calc"], "jobs": 3, "timeout_s": 1500, "mem_gb": 24,
         "functions": ["net::ipv4::Ipv4::{recv_icmp_probe,extract_probe_resp,extract_probe_proto_resp,calc_udp_checksum}"],
-        "stubs": [SOCK_STUB, CLOCK_STUB, "udp_ipv4_checksum -> arbitrary u16 (UDP harnesses only; C13 covers it)"],
+        "stubs": [SOCK_STUB, CLOCK_STUB, "Ipv4::calc_udp_checksum -> arbitrary Ok(u16) in c04_v4_recv_udp (decided separately "
+                  "for every size by c04_v4_calc_udp_checksum_any_size and c19_v4_*); udp_ipv4_checksum -> arbitrary u16 there"],
         "bounds": "arbitrary datagram of <= 72 (quick) / 96 (thorough) bytes, every length, ICMP/UDP/TCP x extension mode",
     },
     {
